@@ -224,6 +224,7 @@ int main(int argc, char** argv)
             if (sc.mode == 5 && sc.site == 12345 && scen != 7) continue;
             if (sc.mode == 5 && sc.site != 12345 && scen != 6 && scen != 3) continue;     // the handshake tags exist in the MIS-2 scenarios only
             if (sc.mode == 3 && scen == 7 && sc.site != 12345) continue;
+            if (scen == 7 && inst > 0) continue;                                  // 2346 exchanges per schedule: one instance is enough (thorough tier)
             if (sc.mode == 3 && scen == 6) continue;
             char buf[160]; snprintf(buf, 160, "scen%d/inst%d/sched%zu(mode%d,site%d,perm%d,delay%d,gather%d)", scen, inst, si, sc.mode, sc.site, sc.perm, sc.delay, sc.gather);
             E.about(buf);
